@@ -304,23 +304,10 @@ def _run_ttp(case, R):
                  {'q': 'precipitateDensity', 'ineq': '>', 'value': 1e20, 'phase': 'AL3ZR', 'element': None},
                  {'q': 'volFrac', 'ineq': '>', 'value': 0.5, 'phase': None, 'element': None}]     # never met
     mech = {'system': system}
-    # --- the calculator (one model, one backend, reset between temperatures)
-    th = precip.make_therm(system, cfg['phases'])
-    model = precip.build_model(cfg, th)
-    conds = [_make_condition(c['q'], c['ineq'], c['value'], c['phase'], c['element']) for c in cdesc]
-    try:
-        ttp = TTPCalculator(model, conds)
-        ttp.calculateTTP(Ts[0], Ts[-1], len(Ts), maxTime)
-        got = np.array(ttp.transformationTimes, dtype=float)
-    except Exception as e:
-        R.exception('c19.no_exception', e, dict(mech, clause='ttp'))
-        return
-    R.count('c19.no_exception')
-    # --- independent runs
-    met_some = 0
+    # --- independent runs first (they also provide the peaks from which the adaptive thresholds are taken)
+    refs = []
+    hist = []
     for i, T in enumerate(Ts):
-        c2 = dict(cfg)
-        c2['schedule'] = {'kind': 'iso', 'T': float(T)}
         th2 = precip.make_therm(system, cfg['phases'])
         m2 = precip.build_model(cfg, th2)
         objs = [_make_condition(c['q'], c['ineq'], c['value'], c['phase'], c['element']) for c in cdesc]
@@ -335,15 +322,62 @@ def _run_ttp(case, R):
         except Exception as e:
             R.exception('c19.no_exception', e, dict(mech, clause='reference_run'))
             return
-        for j, o in enumerate(objs):
-            ref = o.satisfiedTime()
+        refs.append([o.satisfiedTime() for o in objs])
+        n = m2.pData.n
+        hist.append({'t': np.array(m2.pData.time[:n + 1], copy=True), 'dens': np.array(m2.pData.precipitateDensity[:n + 1, 0], copy=True)})
+    # --- adaptive conditions: number density thresholds between the peaks reached at different temperatures, so that the
+    # condition is met at some temperatures and NOT met at others (added after seeded change C19-d: the time of the previous
+    # temperature survived the calculator's reset and was reported for a temperature at which the condition was never met)
+    peaks = np.array([float(np.max(h['dens'])) for h in hist])
+    order = np.argsort(peaks)
+    adaptive = []
+    for lo, hi in ((order[-2], order[-1]), (order[0], order[1])):
+        if peaks[lo] > 0 and peaks[hi] / peaks[lo] > 1.2:
+            adaptive.append(float(np.sqrt(peaks[lo] * peaks[hi])))
+    adesc = [{'q': 'precipitateDensity', 'ineq': '>', 'value': v, 'phase': cfg['phases'][0], 'element': None} for v in adaptive]
+
+    def _interp(h, thr):
+        # independent statement of the rule: first step whose end value exceeds the threshold, linear interpolation inside it
+        q, t = h['dens'], h['t']
+        k = np.nonzero(q > thr)[0]
+        if len(k) == 0:
+            return -1.0
+        k = int(k[0])
+        if k == 0:
+            return float(t[0])
+        return float(t[k - 1] + (thr - q[k - 1]) / (q[k] - q[k - 1]) * (t[k] - t[k - 1]))
+    for i in range(len(Ts)):
+        refs[i] = refs[i] + [_interp(hist[i], v) for v in adaptive]
+    allc = cdesc + adesc
+    # --- the calculator (one model, one backend, reset between temperatures)
+    th = precip.make_therm(system, cfg['phases'])
+    model = precip.build_model(cfg, th)
+    conds = [_make_condition(c['q'], c['ineq'], c['value'], c['phase'], c['element']) for c in allc]
+    try:
+        ttp = TTPCalculator(model, conds)
+        ttp.calculateTTP(Ts[0], Ts[-1], len(Ts), maxTime)
+        got = np.array(ttp.transformationTimes, dtype=float)
+    except Exception as e:
+        R.exception('c19.no_exception', e, dict(mech, clause='ttp'))
+        return
+    R.count('c19.no_exception')
+    met_some = 0
+    for i, T in enumerate(Ts):
+        for j in range(len(allc)):
+            ref = refs[i][j]
             g = got[i, j]
             if ref == -1 or g == -1:
                 ok = ref == g
             else:
                 ok = abs(g - ref) <= 1e-6 * abs(ref)
                 met_some += 1
-            R.check('c19.ttp', ok, dict(mech, quantity=cdesc[j]['q'], temperature_index=i, never_met=(ref == -1)),
-                    calculator=g, independent=ref, T=T)
+            met_before = bool(any(refs[k][j] != -1 for k in range(i)))
+            if ref == -1 and met_before:
+                R.observe('ttp_unmet_after_met_at_an_earlier_temperature')
+            R.check('c19.ttp', ok, dict(mech, quantity=allc[j]['q'], temperature_index=i, never_met=(ref == -1), adaptive=j >= len(cdesc),
+                                        met_at_an_earlier_temperature=met_before),
+                    calculator=g, independent=ref, T=T, threshold=allc[j]['value'])
+    R.info['adaptive_thresholds'] = adaptive
+    R.info['peaks'] = peaks
     R.info.update({'system': system, 'ttp_times': got, 'temperatures': Ts})
     R.set_nontrivial(met_some >= 2, key='ttp-%d' % case['variant'])
